@@ -9,7 +9,11 @@ from vc2_data_tables import (
     Levels,
     ParseCodes,
     PictureCodingModes,
+    PresetColorMatrices,
+    PresetColorPrimaries,
+    PresetTransferFunctions,
     Profiles,
+    SourceSamplingModes,
     WaveletFilters,
 )
 
@@ -79,6 +83,13 @@ def configs():
         ("hq_420", base_cf(vp=dict(color_diff_format_index=C420), picture_bytes=30)),
         ("hq_422_10bit", base_cf(vp=dict(color_diff_format_index=C422, luma_excursion=876, luma_offset=64,
                                          color_diff_excursion=896, color_diff_offset=512), picture_bytes=50)),
+        # fully custom colour specification (custom primaries, matrix and a version-3 transfer function) + custom
+        # frame rate / pixel aspect ratio / clean area / scan format
+        ("hq_custom_color", base_cf(picture_bytes=40, vp=dict(
+            color_primaries_index=PresetColorPrimaries.d_cinema, color_matrix_index=PresetColorMatrices.reversible,
+            transfer_function_index=PresetTransferFunctions.hybrid_log_gamma, frame_rate_numer=30000, frame_rate_denom=1001,
+            pixel_aspect_ratio_numer=12, pixel_aspect_ratio_denom=11, clean_width=6, clean_height=2, left_offset=1, top_offset=1,
+            source_sampling=SourceSamplingModes.interlaced, top_field_first=False))),
         ("hq_custom_matrix", base_cf(quantization_matrix={0: {"LL": 3}, 1: {"HL": 1, "LH": 2, "HH": 5}})),
         ("hq_depth2_legall", base_cf(wavelet_index=W.le_gall_5_3, wavelet_index_ho=W.le_gall_5_3, dwt_depth=2,
                                      picture_bytes=60, vp=dict(frame_width=12, frame_height=6))),
@@ -129,6 +140,12 @@ def _build():
     # (serialised one by one and concatenated, which is a conformant stream as well: the corpus itself should not depend
     # on one serialiser run getting several formats right -- that is for the round-trip checks to find out)
     entries.append(dict(name="two_formats", cf=cfa, data=S.serialise_stream(B.Stream(sequences=[sqa])) + S.serialise_stream(B.Stream(sequences=[sqb]))))
+    # picture-less sequences under real levels (level-constrained headers; the levels' ordering patterns apply)
+    for nm, level, base in (("level1_empty", 1, BaseVideoFormats.qsif525), ("level3_empty", 3, BaseVideoFormats.hd720p_60)):
+        cl = base_cf(level=Levels(level), lossless=True, picture_bytes=None, wavelet_index=WaveletFilters.le_gall_5_3,
+                     wavelet_index_ho=WaveletFilters.le_gall_5_3, dwt_depth=2, slices_x=1, slices_y=1)
+        cl["video_parameters"] = set_source_defaults(base)
+        entries.append(dict(name=nm, cf=cl, data=S.serialise_stream(B.Stream(sequences=[make_sequence(cl, [])]))))
     # picture-less sequences (sequence header + end of sequence), both profiles
     for nm, c in (("hq_empty", cf), ("ld_empty", base_cf(profile=LD, picture_bytes=16))):
         entries.append(dict(name=nm, cf=c, data=S.serialise_stream(B.Stream(sequences=[make_sequence(c, [])]))))
